@@ -267,6 +267,23 @@ CLAIMED = {
     note=("Trusted: TLC, blimpy for reading pieces, pixel identities exact in float32; piece frequencies at 1e-3 channel."),
     technique="TLA+ model (TLC exhaustive) + spec-generated jobs executed by the implementation",
     design_ref="DESIGN.md 4.6, 5 (C19)", engine="split"),
+ "C11": dict(
+    text=("Noise.tla models the noise bookkeeping: which estimate a frame holds after any sequence of add_noise (chi2 / "
+          "gaussian / truncated), add_noise_from_obs (shared or separate index; user tables or the built-in ones), zero_data, "
+          "add_signal and SNR queries ('zero', the requested parameters, or a re-estimate), k = 4 round(df dt) (set-valued at "
+          "exact halves), and on the voltage side variances adding in quadrature incl. the shared array background; TLC "
+          "checks FirstNoiseSetsParams, LaterNoiseReestimates, ZeroDataResets, SignalLeavesEstimate, QuadratureSum. "
+          "Behaviours drawn by TLC are replayed on real frames (60000 pixels) and a real 2-antenna array: returned noise == "
+          "data delta bit for bit, estimates equal to the parameters / chi2 formula with TLC's k / the sigma-clipped "
+          "re-estimate, table parameters are table entries (one common row when shared; built-in table scaled by dt), "
+          "truncated noise >= floor, intensity/snr inverse and ValueError without noise, stream/background/total "
+          "deviations equal TLC's variances after every call and after update_noise."),
+    note=("Distribution clauses are OUTSIDE what TLC evaluates: sample mean and variance of every added noise array and of the "
+          "realised voltages are tested at 6.5 standard errors (from the sample's fourth moment) against the mean / "
+          "variance the spec names; false-alarm probability < 1e-6 per run. Trusted: numpy/scipy normal cdf, astropy "
+          "sigma_clip for the re-estimate."),
+    technique="TLA+ model (TLC exhaustive) + spec-generated behaviours replayed on the implementation; moments as z-score projections",
+    design_ref="DESIGN.md 4.3, 5 (C11), 9", engine="noise"),
 }
 
 NOT_YET = "check not built yet in this round (planned, see DESIGN.md 5); no claim is made"
